@@ -40,7 +40,20 @@ def run_instant(case):
            f"{whole[0]}.{whole[1:].ljust(15, '0')}E+{len(str(ms // 1000)) - 1:02d}")[st]
     # the date: three I4 integers in one of the styles the specification enumerates (blank padded / zero padded)
     pp_date = e["date_text"][("blank", "zero2")[(case["seed"] // 3) % 2]] if "date_text" in e else f"{y:4d}{e['month']:4d}{e['day']:4d}"
-    ctx = dict(scene_center_time=compact + frac, creation_datetime=compact + f"{e['mmm'] // 10:02d}", pp_date=pp_date,
+    # every fourth product: the scene centre lies 14 min AFTER the first state vector / the attitude points (orbit data start before the
+    # scene) -- for the last instants of a year it is in the NEXT year, and the attitude points still count from the first point's year
+    centre_shift = 840000 if case["seed"] % 4 == 2 else 0
+    centre_text = compact + frac
+    if centre_shift:
+        if "later14m" in e:
+            cy, cdoy, cms = e["later14m"]["y"], e["later14m"]["doy"], e["later14m"]["ms"]
+        else:
+            tot14 = e["daynumber"] * 86400000 + ms + centre_shift
+            dd = dt.date(2000, 1, 1) + dt.timedelta(days=tot14 // 86400000)
+            cy, cdoy, cms = dd.year, (dd - dt.date(dd.year, 1, 1)).days + 1, tot14 % 86400000
+        cd = dt.date(cy, 1, 1) + dt.timedelta(days=cdoy - 1)
+        centre_text = f"{cy:04d}{cd.month:02d}{cd.day:02d}{cms // 3600000:02d}{(cms // 60000) % 60:02d}{(cms // 1000) % 60:02d}{cms % 1000:03d}{us:03d}"
+    ctx = dict(scene_center_time=centre_text, creation_datetime=compact + f"{e['mmm'] // 10:02d}", pp_date=pp_date,
                pp_doy=doy, pp_sod=sod, att_doy=doy, att_ms=ms)
     # a second polarisation of the same scan whose lines start a fraction of a pulse interval later, inside the same millisecond
     us2 = us + 367 if us + 367 < 1000 else us - 367
@@ -113,7 +126,7 @@ def run_instant(case):
             "attitude-time-last": (ns(tree["metadata/attitude/attitude"]["time"].values[-1]), want_ms),
             "attitude-rates-time": (ns(tree["metadata/attitude/rates"]["time"].values[0]), want_ms),
             "platform-position-first-point": (iso_ns(tree["metadata/platform_position"].attrs["datetime_of_first_point"]), want_ms),
-            "scene-centre": (iso_ns(tree["metadata/dataset_summary"].attrs["scene_center_time"]), want_us),
+            "scene-centre": (iso_ns(tree["metadata/dataset_summary"].attrs["scene_center_time"]), want_us + centre_shift * 10**6),
             "volume-creation": (iso_ns(tree.attrs["creation_datetime"]), day_ns + (ms // 10) * 10**7),
         }
         for name, (got, want) in obs.items():
